@@ -638,6 +638,18 @@ class Piece:
                 S = (s0, end)
                 break
             i = end + 1
+        let_pat = None
+        if S is not None and toks[S[0]].text == "let":
+            # `let PAT = match X { A => v, B => { ..; continue; }, .. };`: when one arm yields the value and the others leave the round,
+            # the binding and the rest of the round go into that arm: `match X { A => { let PAT = v; REST } B => { .. } .. }`
+            q = S[0] + 1
+            while q < S[1] and not (toks[q].text == "=" and toks[q + 1].text != "=" and toks[q - 1].text not in ("=", "!", "<", ">")):
+                if toks[q].text in OPEN:
+                    q = match_close(toks, q)
+                q += 1
+            if q < S[1] and toks[q + 1].text == "match" and toks[S[1]].text == ";" and toks[S[1] - 1].text == "}":
+                let_pat = text[toks[S[0]].start:toks[q].end]     # `let PAT =`
+                S = (q + 1, S[1])
         if S is None or toks[S[0]].text not in ("if", "match"):
             raise Undecided("`continue` of a `for` loop outside an `if` / `match` statement of the loop body (the installed Verus takes no `continue` in `for` loops)")
         s0, s1 = S
@@ -740,7 +752,21 @@ class Piece:
             if toks[q + 1].text == ";":
                 e_ = toks[q + 1].end
             edits.append((toks[q].start, e_, "{}" if toks[q - 1].text == ">" or toks[q - 1].text == "," else ""))
-        if implicit_else:
+        if let_pat is not None:
+            if implicit_else:
+                raise Undecided("`continue` of a `for` loop in a `let .. = if ..`")
+            kind, a, b = falls[0]
+            # the `let PAT =` in front of the match goes away; the value arm binds PAT and carries the rest of the round
+            lp0 = toks[s0].start - len(let_pat)
+            k_ = s0 - 1
+            while toks[k_].text != "let":
+                k_ -= 1
+            edits.append((toks[k_].start, toks[s0].start, ""))
+            if toks[s1].text == ";":
+                edits.append((toks[s1].start, toks[s1].end, ""))
+            edits.append((toks[a].start, toks[a].start, "{ " + let_pat + " "))
+            edits.append((toks[b].end, toks[b].end, ";" + rest + "}"))
+        elif implicit_else:
             edits.append((toks[s1].end, toks[s1].end, "")) if False else None
             last_block_close = branches[-1][2]
             edits.append((toks[last_block_close].end, toks[last_block_close].end, " else {" + rest + "}"))
@@ -957,7 +983,7 @@ class Piece:
         # trait StrExt, exact specs) - only the method's name changes
         if "stdx" in self.unit.preludes:
             for k in range(kb, k1 - 3):
-                if toks[k].text == "." and toks[k + 1].kind == "ident" and toks[k + 1].text in ("trim_start_matches", "trim_end_matches", "strip_prefix", "strip_suffix") \
+                if toks[k].text == "." and toks[k + 1].kind == "ident" and toks[k + 1].text in ("trim_start_matches", "trim_end_matches", "strip_prefix", "strip_suffix", "starts_with", "ends_with", "contains") \
                         and toks[k + 2].text == "(" and toks[k + 4].text == ")":
                     lit = toks[k + 3]
                     kind_ = "char" if lit.text.startswith("'") and lit.kind != "lifetime" else "str" if lit.text.startswith('"') else None
@@ -1232,7 +1258,7 @@ class Piece:
                 if j_ >= ko:
                     raise Undecided(f"{fn.name}: loop #{ordinal}: no `in`")
                 rng = self.sf.text[toks[j_ + 1].start:toks[ko].start].strip()
-                if not re.match(r"^\(?\s*0\s*\.\.[^=]", rng):
+                if not re.match(r"^\(?\s*0\s*\.\.=?\s*[^=\s]", rng):
                     raise Undecided(f"{fn.name}: loop #{ordinal}: counted loop over `{rng}` (only `0..N` counts rounds from zero)")
                 gname = f"cnt{ordinal}__"
                 self._add(toks[j_ + 1].start, toks[j_ + 1].start, gname + ": ", "insert")
@@ -1604,6 +1630,10 @@ class Piece:
                             j += 1
                         ko = j + 1
                     kc = match_close(toks, ko)
+                    if is_method and kc == ko + 2 and toks[ko + 1].text in ("true", "false"):
+                        # a builder switch of the same name (OpenOptions::write(true) next to File::write(data)): no ghost state involved
+                        k += 1
+                        continue
                     empty = kc == ko + 1
                     sep = "" if empty or toks[kc - 1].text == "," else ", "
                     self._add(toks[kc].start, toks[kc].start, sep + GHOST_ARG, "T-GHOST")
